@@ -1157,6 +1157,9 @@ func (fe *FuncEnc) checkPost(st *State, results []string, pos token.Pos) {
 		fe.storeLeaf(st, ghostVar(w.g), ghostSort(w.g), w.addr, w.val)
 	}
 	for _, en := range fe.c.Ensures {
+		if en.AssumedOnly {
+			continue
+		}
 		fe.oblige(st, "post", en.Label, fe.evalBool(env, en.Expr, en.Where), pos, "postcondition: "+en.Src)
 	}
 	if fe.c.HasAssigns {
